@@ -8,6 +8,8 @@
 #include <tlx/digest/sha512.hpp>
 #include <tlx/siphash.hpp>
 
+#include "siphash_ref.hpp"
+
 #include <array>
 #include <cstdint>
 #include <cstdio>
@@ -332,7 +334,9 @@ int main(int argc, char** argv)
             std::uint64_t s = p;
 #endif
             std::uint64_t d = tlx::siphash(k, m, msg.size());
-            os << "P plain=" << hex64(p) << " sse2=" << hex64(s) << " disp=" << hex64(d);
+            // ref = the harness's own straight-from-the-paper SipHash-2-4 (siphash_ref.hpp): validated here against the extracted
+            // Coq spec, it is the reference of the huge-message and thread stages
+            os << "P plain=" << hex64(p) << " sse2=" << hex64(s) << " disp=" << hex64(d) << " ref=" << hex64(c14ref::ref_siphash24(k, m, msg.size()));
             // default-key entry points (they ignore `key`): uint8_t*, char*, tlx::string_view, std::string, std::string_view
             {
                 const char* cm = reinterpret_cast<const char*>(m);
